@@ -73,8 +73,8 @@ def run(ctx):
     ctx.assumptions += [
         "programs are int-typed: a use is wrapped by the kind of its target so that the text type-checks",
         "names a, b, c (up to renaming in the exhaustive configurations); nesting depth <= 3; <= 4-8 identifier occurrences",
-        "a scope-defining node of a kind listed in the Info.Scopes doc comment that has no Scopes entry is reported "
-        "(documented invariant; VERIF_C12_SCOPES=drift demotes it)",
+        "a scope-defining node without a Scopes entry is drift only (the statement does not demand completeness of "
+        "Scopes; VERIF_C12_SCOPES=strict promotes it to a violation)",
         "Defs/Uses keys that are synthesized identifiers (shadow main, overload members) are outside the statement's "
         "'Types or Scopes' clause: recorded as drift",
     ]
